@@ -73,7 +73,7 @@ func genC16(c *Ctx) {
 					continue
 				}
 				for _, ntt := range []bool{true, false} {
-					sigma := []float64{3.2, 25.6, 1 << 10}[c.rng.Intn(3)]
+					sigma := c16PickSigma(c, math.Inf(1))
 					c14Guard(c, "C16-harness-panic", "c16CKS", func() { c16CKS(c, set, n, lvl, lvl, ntt, sigma) })
 					c14Guard(c, "C16-harness-panic", "c16PCKS", func() { c16PCKS(c, set, n, lvl, lvl, ntt, sigma) })
 				}
@@ -91,6 +91,18 @@ func genC16(c *Ctx) {
 	c16CKKS(c, ns)
 	c16SmudgeProbes(c)
 	c16MaskDistributionProbe(c)
+}
+
+// c16PickSigma: the requested flooding σ — params.Xe()'s own 3.2, 2^12 or 2^20 (clearly different from Xe) — among those
+// the noise budget of the run allows.
+func c16PickSigma(c *Ctx, max float64) float64 {
+	var ok []float64
+	for _, s := range []float64{3.2, 1 << 12, 1 << 20} {
+		if s <= max {
+			ok = append(ok, s)
+		}
+	}
+	return ok[c.rng.Intn(len(ok))]
 }
 
 func c16Noise(params rlwe.Parameters, sigma float64) ring.DiscreteGaussian {
@@ -202,7 +214,7 @@ func c16CKS(c *Ctx, set c14Set, n, ctLvl, shareLvl int, ntt bool, sigma float64)
 		protos[i].GenShare(in.sk[i], out.sk[i], ct, &shares[i])
 		e := c16SampleSigned(params, twins[i], lvl, false)
 		// the noise found in the real share (= e when the tie holds), pooled separately for ShallowCopy'd protocols
-		c16Record(fmt.Sprintf("cks copy=%t sigma=%g", copied[i], sigma),
+		c16Record(fmt.Sprintf("cks_share ctor=%s sigma=%g", map[bool]string{false: "new", true: "copy"}[copied[i]], sigma),
 			c16Residual(params, lvl, ntt, shares[i].Value, []c16Term{{ct.Value[1], in.sk[i], 1}, {ct.Value[1], out.sk[i], -1}}, nil, nil))
 		if shares[i].Level() != lvl {
 			c.Probe("run_completed", fmt.Sprintf("cks_share_level set=%s", set.name), "C16-harness", fmt.Sprintf("share_level=%d_want=%d", shares[i].Level(), lvl))
@@ -382,7 +394,7 @@ func c16PCKS(c *Ctx, set c14Set, n, ctLvl, shareLvl int, ntt bool, sigma float64
 		e1 := c16SampleSigned(params, twins[i].xe, shareLvl, false)
 		e := c16SampleSigned(params, twins[i].noise, lvl, true)
 		// phase(share, sk_out) − c1·s_i = smudging noise + the (small) noise of the encryption of zero
-		c16Record(fmt.Sprintf("pcks copy=%t sigma=%g", copied[i], sigma),
+		c16Record(fmt.Sprintf("pcks_share ctor=%s sigma=%g", map[bool]string{false: "new", true: "copy"}[copied[i]], sigma),
 			c16Residual(params, lvl, ntt, shares[i].Value[0], []c16Term{{shares[i].Value[1], skOut, -1}, {ct.Value[1], in.sk[i], 1}}, nil, nil))
 		rows[i] = Mat(c16QRows(params, shares[i].Value[0], shareLvl, ntt)) + "|" + Mat(c16QRows(params, shares[i].Value[1], shareLvl, ntt))
 		c.Emit(fmt.Sprintf("pcks_share %s %s %d %d %s %s %s %s %s %s %s %s", Vec(set.qs(shareLvl)), p0, set.n, lvl, pkRows(0), pkRows(1),
